@@ -47,7 +47,7 @@ class Theme:
         Returns:
             Theme: A New theme instance.
         """
-        config = configparser.ConfigParser()
+        config = configparser.ConfigParser(interpolation=None)
         config.read_file(config_file, source=source)
         styles = {name: Style.parse(value) for name, value in config.items("styles")}
         theme = Theme(styles, inherit=inherit)
